@@ -15,13 +15,9 @@ func (route *Route) Validate() error {
 
 	// Check if the pool is reused
 	// Reuse must be prevented because it causes a problem in the calculation of the slippage
-	defer func() {
-		if r := recover(); r != nil {
-			err := r.(error)
-			panic(errorsmod.Wrapf(ErrInvalidRoute, "%s", err))
-		}
-	}()
-	route.mustNotReusePool(make(map[uint64]bool))
+	if err := route.mustNotReusePool(make(map[uint64]bool)); err != nil {
+		return errorsmod.Wrapf(ErrInvalidRoute, "%s", err)
+	}
 
 	return nil
 }
@@ -93,12 +89,12 @@ func (route *Route) validateRecursive() error {
 	return UnknownStrategyType
 }
 
-func (route *Route) mustNotReusePool(poolIds map[uint64]bool) {
+func (route *Route) mustNotReusePool(poolIds map[uint64]bool) error {
 	switch strategy := route.Strategy.(type) {
 	case *Route_Pool:
 		poolId := strategy.Pool.PoolId
 		if poolIds[poolId] {
-			panic(fmt.Sprintf("reused pool: %d", poolId))
+			return fmt.Errorf("reused pool: %d", poolId)
 		}
 		poolIds[poolId] = true
 
@@ -106,16 +102,22 @@ func (route *Route) mustNotReusePool(poolIds map[uint64]bool) {
 		series := strategy.Series
 
 		for _, r := range series.Routes {
-			r.mustNotReusePool(poolIds)
+			if err := r.mustNotReusePool(poolIds); err != nil {
+				return err
+			}
 		}
 
 	case *Route_Parallel:
 		parallel := strategy.Parallel
 
 		for _, r := range parallel.Routes {
-			r.mustNotReusePool(poolIds)
+			if err := r.mustNotReusePool(poolIds); err != nil {
+				return err
+			}
 		}
 	}
+
+	return nil
 }
 
 func (route *Route) InspectRoute(
